@@ -31,7 +31,7 @@ def impl_cfg(consts, invariants):
 
 # (name, Shape, MaxSet, MaxFail, MaxSF)
 IMPL_QUICK = [("chain", 1, 2, 0, 1), ("subdep", 3, 1, 1, 1)]
-IMPL_THOROUGH = [("chain", 1, 3, 1, 1), ("shared", 2, 3, 1, 1), ("subdep", 3, 3, 1, 1)]
+IMPL_THOROUGH = [("chain", 1, 3, 0, 1), ("shared", 2, 2, 1, 1), ("subdep", 3, 2, 1, 1)]
 FAULTS = [("KeyBug", ("chain", 1, 1, 0, 0)), ("StaleBug", ("chain", 1, 2, 0, 1))]
 
 
@@ -46,7 +46,7 @@ def model_check(ctx, quick):
         kind, c, fault = j
         if kind == "gen":
             return ctx.tlc("SubsysGen", cfg_text=vlib.cfg_text(
-                constants={"MaxLen": 6 if quick else 9, "Level": 1, "Emit": False}, invariants=["Laws"], view="View"),
+                constants={"MaxLen": 6 if quick else 10, "Level": 1, "Emit": False}, invariants=["Laws"], view="View"),
                 workers=max(2, vlib.NCPU // 4), timeout=3000)
         name, shape, ms, mf, msf = c
         return ctx.tlc("SubsysImpl", cfg_text=impl_cfg(
